@@ -1,22 +1,15 @@
 import Percival.Driver.Loop
-import Percival.Model.Json
-import Percival.Model.B64
-import Percival.Model.Hex
-import Percival.Model.Endian
-import Percival.Model.SockAddr
-import Percival.Model.Lines
-import Percival.Spec.Rfc4648
-import Percival.Spec.Hex
-import Percival.Spec.Endian
-import Percival.Spec.Inet
-import Percival.Spec.JVal
-/-! `pmodel parsers`: line protocol for the C15/C17 harness `h_parsers.c` (driver code, not part of any theorem).
+import Percival.Model.ParsersStep
+/-! `pmodel parsers`: line protocol for the C15/C17 harness `h_parsers.c`.
+Thin by construction: `parse` (text → `Model.ParsersStep.Op`), `Model.ParsersStep.stepOp`, `render` (`Out` → text).
 
 Every answer is `L1 | L2`: L1 is what the *specification* says (RFC 4648 text, hex text, byte order, the address a
 literal denotes, `Spec.JVal.expectedFind`, or — for inputs the property only constrains to "stay inside, return
-something in range" — the word `inrange`); L2 is what the bounds-checked *model* computed. -/
+something in range" — the word `inrange`); L2 is what the bounds-checked *model* computed.  Which Spec / Model
+function produces which part is decided in `Model/ParsersStep.lean`; `C15.exec_*` / `C17.exec_*` are about it. -/
 namespace Percival.Driver.Parsers
 open Percival.Model Percival.Driver Percival.Spec
+open Percival.Model.ParsersStep
 
 def hx (l : List UInt8) : String := hexOfBytes l
 
@@ -26,70 +19,125 @@ def resStr {α : Type} (r : Res α) (f : α → String) : String :=
   | .oob => "MODEL-OOB"
   | .nofuel => "MODEL-NOFUEL"
 
-/-- the C string a token stands for: bytes up to the first NUL -/
-def cbytes (l : List UInt8) : List UInt8 := l.takeWhile (· != 0)
+/-! ### description of a `JDoc` in one token (see tools/props/c17.py)
 
-/-! ### description of a `JDoc` in one token (see tools/props/c17.py) -/
-open Percival.Spec.JVal in
-mutual
-partial def pVal (s : List Char) : Option (JDoc × List Char) :=
-  match s with
-  | 'n' :: r => some (.null, r)
-  | 't' :: r => some (.bool true, r)
-  | 'f' :: r => some (.bool false, r)
-  | '#' :: r => do let (b, r) ← pHex r; pure (.num b, r)
-  | 's' :: r => do let (x, r) ← pStr r; pure (.str x, r)
-  | 'a' :: r => do let (w, r) ← pHex r; pure (.arr0 w, r)
-  | 'o' :: r => do let (w, r) ← pHex r; pure (.obj0 w, r)
-  | 'A' :: r => do let (es, r) ← pElems r; pure (.arr es, r)
-  | 'O' :: r => do let (ms, r) ← pMembers r; pure (.obj ms, r)
-  | _ => none
+Total, on fuel: every call is made with more fuel than there are characters left (each of `pVal`, `pElems`,
+`pMembers` consumes at least one character before it calls another one), so the `0` cases are never reached when the
+first call gets `length + 1`. -/
+open Percival.Spec.JVal
+
 /-- hex digits up to `.` -/
-partial def pHex (s : List Char) : Option (List UInt8 × List Char) :=
+def pHex (s : List Char) : Option (List UInt8 × List Char) :=
   let h := s.takeWhile (· != '.')
   match s.drop h.length with
   | '.' :: r => do let b ← bytesOfHexChars h; pure (b, r)
   | _ => none
-partial def pStr (s : List Char) : Option (JStr × List Char) :=
-  match s with
-  | '.' :: r => some ([], r)
-  | 'r' :: a :: b :: r => do
-      let x ← bytesOfHexChars [a, b]; let (t, r) ← pStr r
-      match x with | [c] => pure (.raw c :: t, r) | _ => none
-  | 'e' :: a :: b :: r => do
-      let x ← bytesOfHexChars [a, b]; let (t, r) ← pStr r
-      match x with | [c] => pure (.esc c :: t, r) | _ => none
-  | 'u' :: a :: b :: c :: d :: e :: f :: g :: h :: r => do
-      let x ← bytesOfHexChars [a, b, c, d, e, f, g, h]; let (t, r) ← pStr r
-      match x with | [p, q, u, v] => pure (.uni p q u v :: t, r) | _ => none
-  | _ => none
-partial def pElems (s : List Char) : Option (JElems × List Char) := do
-  let (wb, r) ← pHex s
-  let (v, r) ← pVal r
-  let (wa, r) ← pHex r
-  match r with
-  | ';' :: r => pure (.one wb v wa, r)
-  | ',' :: r => do let (rest, r) ← pElems r; pure (.more wb v wa rest, r)
-  | _ => none
-partial def pMembers (s : List Char) : Option (JMembers × List Char) := do
-  let (wb, r) ← pHex s
-  let (k, r) ← pStr r
-  let (wk, r) ← pHex r
-  let (wv, r) ← pHex r
-  let (v, r) ← pVal r
-  let (wa, r) ← pHex r
-  match r with
-  | ';' :: r => pure (.one wb k wk wv v wa, r)
-  | ',' :: r => do let (rest, r) ← pMembers r; pure (.more wb k wk wv v wa rest, r)
-  | _ => none
+
+def pStr : Nat → List Char → Option (JStr × List Char)
+  | 0, _ => none
+  | f+1, s =>
+    match s with
+    | '.' :: r => some ([], r)
+    | 'r' :: a :: b :: r => do
+        let x ← bytesOfHexChars [a, b]; let (t, r) ← pStr f r
+        match x with | [c] => pure (.raw c :: t, r) | _ => none
+    | 'e' :: a :: b :: r => do
+        let x ← bytesOfHexChars [a, b]; let (t, r) ← pStr f r
+        match x with | [c] => pure (.esc c :: t, r) | _ => none
+    | 'u' :: a :: b :: c :: d :: e :: f' :: g :: h :: r => do
+        let x ← bytesOfHexChars [a, b, c, d, e, f', g, h]; let (t, r) ← pStr f r
+        match x with | [p, q, u, v] => pure (.uni p q u v :: t, r) | _ => none
+    | _ => none
+
+mutual
+def pVal : Nat → List Char → Option (JDoc × List Char)
+  | 0, _ => none
+  | f+1, s =>
+    match s with
+    | 'n' :: r => some (.null, r)
+    | 't' :: r => some (.bool true, r)
+    | 'f' :: r => some (.bool false, r)
+    | '#' :: r => do let (b, r) ← pHex r; pure (.num b, r)
+    | 's' :: r => do let (x, r) ← pStr f r; pure (.str x, r)
+    | 'a' :: r => do let (w, r) ← pHex r; pure (.arr0 w, r)
+    | 'o' :: r => do let (w, r) ← pHex r; pure (.obj0 w, r)
+    | 'A' :: r => do let (es, r) ← pElems f r; pure (.arr es, r)
+    | 'O' :: r => do let (ms, r) ← pMembers f r; pure (.obj ms, r)
+    | _ => none
+def pElems : Nat → List Char → Option (JElems × List Char)
+  | 0, _ => none
+  | f+1, s => do
+    let (wb, r) ← pHex s
+    let (v, r) ← pVal f r
+    let (wa, r) ← pHex r
+    match r with
+    | ';' :: r => pure (.one wb v wa, r)
+    | ',' :: r => do let (rest, r) ← pElems f r; pure (.more wb v wa rest, r)
+    | _ => none
+def pMembers : Nat → List Char → Option (JMembers × List Char)
+  | 0, _ => none
+  | f+1, s => do
+    let (wb, r) ← pHex s
+    let (k, r) ← pStr f r
+    let (wk, r) ← pHex r
+    let (wv, r) ← pHex r
+    let (v, r) ← pVal f r
+    let (wa, r) ← pHex r
+    match r with
+    | ';' :: r => pure (.one wb k wk wv v wa, r)
+    | ',' :: r => do let (rest, r) ← pMembers f r; pure (.more wb k wk wv v wa rest, r)
+    | _ => none
 end
 
 def parseDoc (s : String) : Option Spec.JVal.JDoc :=
-  match pVal s.toList with
+  match pVal (s.length + 1) s.toList with
   | some (d, []) => some d
   | _ => none
 
-/-! ### socket addresses -/
+/-! ### text → typed op -/
+
+/-- a decimal `int` argument as the 4 bytes of the C `int` -/
+def int32 (t : String) : Option UInt32 := t.toInt?.map fun f => UInt32.ofNat (f % 4294967296).toNat
+
+def endianKind : String → Option (Bool × Width)
+  | "be16" => some (true, .w16)
+  | "le16" => some (false, .w16)
+  | "be32" => some (true, .w32)
+  | "le32" => some (false, .w32)
+  | "be64" => some (true, .w64)
+  | "le64" => some (false, .w64)
+  | _ => none
+
+def parse : List String → Option Op
+  | ["jfind", doc, key] => do pure (.jfind (← bytesOfHex doc) (← bytesOfHex key))
+  | ["jfindv", doc, key, lead, desc, trail] => do
+      pure (.jfindv (← bytesOfHex doc) (← bytesOfHex key) (← bytesOfHex lead) (← parseDoc desc) (← bytesOfHex trail))
+  | ["skipv", doc, off] => do pure (.skipv (← bytesOfHex doc) (← off.toNat?))
+  | ["skipvv", doc, pre, desc, post] => do
+      pure (.skipvv (← bytesOfHex doc) (← bytesOfHex pre) (← parseDoc desc) (← bytesOfHex post))
+  | ["b64enc", inp] => do pure (.b64enc (← bytesOfHex inp))
+  | ["b64dec", inp] => do pure (.b64dec (← bytesOfHex inp))
+  | ["hexify", inp] => do pure (.hexify (← bytesOfHex inp))
+  | ["unhex", inp, len] => do pure (.unhex (← bytesOfHex inp) (← len.toNat?))
+  | ["unhexb", inp, len] => do pure (.unhexb (← bytesOfHex inp) (← len.toNat?))
+  | ["endian", kind, off, x, buf] => do
+      let (be, w) ← endianKind kind
+      -- the value is written as big-endian hex digits
+      pure (.endian be w (← off.toNat?) (Endian.beVal (← bytesOfHex x)) (← bytesOfHex buf))
+  | ["abi"] => some .abi
+  | ["sser", fam, st, name] => do pure (.sser (← int32 fam) (← int32 st) (← bytesOfHex name))
+  | ["sdes", buf] => do pure (.sdes (← bytesOfHex buf))
+  | ["sres", addr] => do pure (.sres (← bytesOfHex addr))
+  | ["ensure", addr] => do pure (.ensure (← bytesOfHex addr))
+  | ["awskeys", file] => do pure (.awskeys (← bytesOfHex file))
+  | ["readpass", file] => do pure (.readpass (← bytesOfHex file))
+  | "humansize" :: _ => some (.observed .humansize)
+  | "parsenum" :: _ => some (.observed .parsenum)
+  | "getopt" :: _ => some (.observed .getopt)
+  | _ => none
+
+/-! ### typed answer → text -/
+
 open Percival.Model.SockAddr in
 def showInt (x : UInt32) : String :=
   if x.toNat < 2147483648 then toString x.toNat else toString ((x.toNat : Int) - 4294967296)
@@ -97,204 +145,94 @@ open Percival.Model.SockAddr in
 def showAddr (a : SockAddr) : String :=
   s!"{showInt a.family} {showInt a.socktype} {a.namelen.toNat} {hx a.name.toList}"
 
-def ntop4 (a : List UInt8) : Option (List UInt8) := if a.length = 4 then some (Inet.print4 a) else none
-def ntop6 (a : List UInt8) : Option (List UInt8) := if a.length = 16 then some (Inet.print6 a) else none
-
-open Percival.Model.SockAddr in
-/-- resolve, then (for an address) prettyprint it and resolve that again -/
-def sres (addr : List UInt8) : String :=
-  let ab := cstr addr
-  match resolve Inet.parse4 Inet.parse6 ab with
-  | .ok .err => "sres err"
-  | .ok (.host _ _) => "sres host"
-  | .ok (.addr a) =>
-    let pp := prettyprint ntop4 ntop6 a
-    match pp with
-    | .ok (some s) =>
-      let again := match resolve Inet.parse4 Inet.parse6 (cstr s) with
-        | .ok (.addr a') => if a' == a then "1" else "0"
-        | _ => "0"
-      s!"sres addr {showAddr a} rr=1 | pp={hx s} m={again}"
-    | .ok none => s!"sres addr {showAddr a} rr=? | pp=null"
-    | _ => "sres MODEL-OOB"
-  | .oob => "sres MODEL-OOB"
-  | .nofuel => "sres MODEL-NOFUEL"
-
+/-- a number as `bytes` big-endian bytes in hex -/
 def natHex (n bytes : Nat) : String := hx (Endian.beBytes bytes n)
 
-def endianOp (kind : String) (off : Nat) (x : Nat) (buf : List UInt8) : String :=
-  let b : Buf := buf.toArray
-  let n := match kind with | "be16" | "le16" => 2 | "be32" | "le32" => 4 | _ => 8
-  let be := kind.startsWith "be"
-  -- L1: the defined byte order, from Spec.Endian
-  let specBytes := if be then Endian.beBytes n x else Endian.leBytes n x
-  let specBuf := buf.take off ++ specBytes ++ buf.drop (off + n)
-  let specDec := if be then Endian.beVal ((buf.drop off).take n) else Endian.leVal ((buf.drop off).take n)
-  -- L2: the model
-  let enc : Res Buf := match kind with
-    | "be16" => Percival.Model.Endian.be16enc b off (UInt16.ofNat x)
-    | "le16" => Percival.Model.Endian.le16enc b off (UInt16.ofNat x)
-    | "be32" => Percival.Model.Endian.be32enc b off (UInt32.ofNat x)
-    | "le32" => Percival.Model.Endian.le32enc b off (UInt32.ofNat x)
-    | "be64" => Percival.Model.Endian.be64enc b off (UInt64.ofNat x)
-    | _ => Percival.Model.Endian.le64enc b off (UInt64.ofNat x)
-  let dec : Res Nat := match kind with
-    | "be16" => Percival.Model.Endian.be16dec b off >>= fun v => .ok v.toNat
-    | "le16" => Percival.Model.Endian.le16dec b off >>= fun v => .ok v.toNat
-    | "be32" => Percival.Model.Endian.be32dec b off >>= fun v => .ok v.toNat
-    | "le32" => Percival.Model.Endian.le32dec b off >>= fun v => .ok v.toNat
-    | "be64" => Percival.Model.Endian.be64dec b off >>= fun v => .ok v.toNat
-    | _ => Percival.Model.Endian.le64dec b off >>= fun v => .ok v.toNat
-  s!"endian {hx specBuf} {natHex specDec n} | " ++
-    resStr enc (fun e => hx e.toList) ++ " " ++ resStr dec (fun v => natHex v n)
+def bit (b : Bool) : String := if b then "1" else "0"
+
+def showRanged (name : String) : Ranged Nat → String
+  | .inrange j => s!"{name} inrange | off={j}"
+  | .outOfRange j => s!"{name} MODEL-OUT-OF-RANGE {j}"
+  | .oob => s!"{name} MODEL-OOB"
+  | .nofuel => s!"{name} MODEL-NOFUEL"
+
+def showDescribed (name : String) : Described → String
+  | .mismatch => s!"{name} desc-mismatch"
+  | .answer spec model => s!"{name} {spec} | " ++ resStr model toString
+
+def showUnhex (name : String) (spec : Option (List UInt8)) (model : Res (Option (List UInt8))) : String :=
+  let l1 := match spec with
+    | some b => s!"{name} ok {hx b}"
+    | none => s!"{name} bad"
+  let l2 := resStr model fun r =>
+    match r with | none => "bad" | some w => s!"w={hx w}"
+  s!"{l1} | {l2}"
+
+def observedName : Observed → String
+  | .humansize => "humansize"
+  | .parsenum => "parsenum"
+  | .getopt => "getopt"
+
+def render : Out → String
+  | .ooc => "bad-op"
+  | .jfind r => showRanged "jfind" r
+  | .jfindv r => showDescribed "jfindv" r
+  | .skipv r => showRanged "skipv" r
+  | .skipvv r => showDescribed "skipvv" r
+  | .b64enc spec model => s!"b64enc {hx spec} | " ++ resStr model hx
+  | .b64dec spec model =>
+    let l1 := match spec with
+      | some b => s!"b64dec ok {hx b}"
+      | none => "b64dec bad"
+    let l2 := resStr model fun r =>
+      match r with
+      | none => "bad"
+      | some (w, n) => s!"w={hx w} n={n}"
+    s!"{l1} | {l2}"
+  | .hexify spec model => s!"hexify {hx spec} | " ++ resStr model hx
+  | .unhex spec model => showUnhex "unhex" spec model
+  | .unhexb spec model => showUnhex "unhexb" spec model
+  | .endian w specBuf specDec enc dec =>
+    s!"endian {hx specBuf} {natHex specDec w.bytes} | " ++
+      resStr enc hx ++ " " ++ resStr dec (fun v => natHex v w.bytes)
+  | .abi unix inet inet6 stream sunPath sizeUn sizeIn sizeIn6 =>
+    s!"abi ok | unix={unix} inet={inet} inet6={inet6} stream={stream} " ++
+    s!"sun_path={sunPath} un={sizeUn} in={sizeIn} in6={sizeIn6} int=4 socklen=4 le=1"
+  | .sser model =>
+    let l2 := resStr model fun (bytes, rt, dp) => s!"ser={hx bytes} rt={bit rt} dup={bit dp}"
+    s!"sser rt=1 dup=1 | {l2}"
+  | .sdes r =>
+    match r with
+    | .inrange none => "sdes inrange | null"
+    | .inrange (some a) => s!"sdes inrange | {showAddr a}"
+    | .outOfRange _ => "sdes MODEL-OUT-OF-RANGE"
+    | .oob => "sdes MODEL-OOB"
+    | .nofuel => "sdes MODEL-NOFUEL"
+  | .sres r =>
+    match r with
+    | .err => "sres err"
+    | .host => "sres host"
+    | .addr a s again => s!"sres addr {showAddr a} rr=1 | pp={hx s} m={bit again}"
+    | .addrNoText a => s!"sres addr {showAddr a} rr=? | pp=null"
+    | .oob => "sres MODEL-OOB"
+    | .nofuel => "sres MODEL-NOFUEL"
+  | .ensure model => "ensure inrange | " ++ resStr model hx
+  | .awskeys model =>
+    "awskeys inrange | " ++ resStr model fun r =>
+      match r with
+      | .fail => "fail"
+      | .keys i s => s!"ok {hx i} {hx s}"
+  | .readpass model =>
+    "readpass inrange " ++ resStr model fun r =>
+      match r with
+      | none => "fail"
+      | some p => s!"ok {hx p}"
+  | .observed o => observedName o ++ " inrange"
 
 def step (_ : Unit) (toks : List String) : Unit × String :=
-  let out : String :=
-    match toks with
-    -- JSON ------------------------------------------------------------------------------------
-    | ["jfind", doc, key] =>
-      match bytesOfHex doc, bytesOfHex key with
-      | some d, some k =>
-        let r := Json.jsonFind d.toArray (cstr (cbytes k))
-        match r with
-        | .ok j => if j ≤ d.length then s!"jfind inrange | off={j}" else s!"jfind MODEL-OUT-OF-RANGE {j}"
-        | _ => resStr r (fun _ => "") |> fun e => s!"jfind {e}"
-      | _, _ => "bad-op"
-    | ["jfindv", doc, key, lead, desc, trail] =>
-      match bytesOfHex doc, bytesOfHex key, bytesOfHex lead, parseDoc desc, bytesOfHex trail with
-      | some d, some k, some l, some jd, some t =>
-        if l ++ jd.ser ++ t != d then "jfindv desc-mismatch" else
-        let exp := JVal.expectedFind l jd t (cbytes k)
-        s!"jfindv {exp} | " ++ resStr (Json.jsonFind d.toArray (cstr (cbytes k))) toString
-      | _, _, _, _, _ => "bad-op"
-    | ["skipv", doc, off] =>
-      match bytesOfHex doc, off.toNat? with
-      | some d, some i =>
-        let r := Json.skipValue d.toArray i
-        match r with
-        | .ok j => if i ≤ j ∧ j ≤ d.length then s!"skipv inrange | off={j}" else s!"skipv MODEL-OUT-OF-RANGE {j}"
-        | _ => "skipv " ++ resStr r (fun _ => "")
-      | _, _ => "bad-op"
-    | ["skipvv", doc, pre, desc, post] =>
-      match bytesOfHex doc, bytesOfHex pre, parseDoc desc, bytesOfHex post with
-      | some d, some p, some jd, some q =>
-        if p ++ jd.ser ++ q != d then "skipvv desc-mismatch" else
-        s!"skipvv {p.length + jd.ser.length} | " ++ resStr (Json.skipValue d.toArray p.length) toString
-      | _, _, _, _ => "bad-op"
-    -- base 64 ---------------------------------------------------------------------------------
-    | ["b64enc", inp] =>
-      match bytesOfHex inp with
-      | some b => s!"b64enc {hx (Rfc4648.encode b ++ [0])} | " ++ resStr (B64.b64encode b.toArray b.length) hx
-      | none => "bad-op"
-    | ["b64dec", inp] =>
-      match bytesOfHex inp with
-      | some s =>
-        let l1 := if Rfc4648.wfb s then s!"b64dec ok {hx (Rfc4648.decode s)}" else "b64dec bad"
-        let l2 := resStr (B64.b64decode s.toArray s.length) fun r =>
-          match r with
-          | none => "bad"
-          | some (w, n) => s!"w={hx w} n={n}"
-        s!"{l1} | {l2}"
-      | none => "bad-op"
-    -- hex -------------------------------------------------------------------------------------
-    | ["hexify", inp] =>
-      match bytesOfHex inp with
-      | some b => s!"hexify {hx (Spec.Hex.encode b ++ [0])} | " ++ resStr (Hex.hexify b.toArray b.length) hx
-      | none => "bad-op"
-    | ["unhex", inp, len] =>
-      match bytesOfHex inp, len.toNat? with
-      | some s0, some n =>
-        let s := cbytes s0
-        let l1 := if 2 * n ≤ s.length then
-            match Spec.Hex.decode (s.take (2 * n)) with
-            | some b => s!"unhex ok {hx b}"
-            | none => "unhex bad"
-          else "unhex bad"
-        let l2 := resStr (Hex.unhexify (cstr s) n) fun r =>
-          match r with | none => "bad" | some w => s!"w={hx w}"
-        s!"{l1} | {l2}"
-      | _, _ => "bad-op"
-    | ["unhexb", inp, len] =>     -- a block of exactly |inp| bytes without terminator, 2 * len ≤ |inp|
-      match bytesOfHex inp, len.toNat? with
-      | some s, some n =>
-        if 2 * n > s.length then "bad-op" else
-        let pre := s.take (2 * n)
-        let l1 := if pre.all (· != 0) then
-            match Spec.Hex.decode pre with
-            | some b => s!"unhexb ok {hx b}"
-            | none => "unhexb bad"
-          else "unhexb bad"
-        let l2 := resStr (Hex.unhexify s.toArray n) fun r =>
-          match r with | none => "bad" | some w => s!"w={hx w}"
-        s!"{l1} | {l2}"
-      | _, _ => "bad-op"
-    -- endian ----------------------------------------------------------------------------------
-    | ["endian", kind, off, x, buf] =>
-      match off.toNat?, bytesOfHex x, bytesOfHex buf with
-      | some o, some xb, some b => endianOp kind o (Endian.beVal xb) b
-      | _, _, _ => "bad-op"
-    -- socket addresses ------------------------------------------------------------------------
-    | ["abi"] =>
-      open Percival.Model.SockAddr in
-      s!"abi ok | unix={AF_UNIX.toNat} inet={AF_INET.toNat} inet6={AF_INET6.toNat} stream={SOCK_STREAM.toNat} " ++
-      s!"sun_path={sunPathSize} un={sizeofSockaddrUn} in={sizeofSockaddrIn} in6={sizeofSockaddrIn6} int=4 socklen=4 le=1"
-    | ["sser", fam, st, name] =>
-      match fam.toInt?, st.toInt?, bytesOfHex name with
-      | some f, some t, some nm =>
-        open Percival.Model.SockAddr in
-        let a : SockAddr := { family := UInt32.ofNat (f % 4294967296).toNat, socktype := UInt32.ofNat (t % 4294967296).toNat, namelen := UInt32.ofNat nm.length, name := nm.toArray }
-        -- L1: the round trips are the identity; L2: the serialised bytes
-        let l2 := resStr (serialize a) fun bytes =>
-          let rt := match deserialize bytes.toArray bytes.length with
-            | .ok (some a') => if a' == a then "1" else "0"
-            | _ => "0"
-          let dp := match dup a with | .ok a' => if a' == a then "1" else "0" | _ => "0"
-          s!"ser={hx bytes} rt={rt} dup={dp}"
-        s!"sser rt=1 dup=1 | {l2}"
-      | _, _, _ => "bad-op"
-    | ["sdes", buf] =>
-      match bytesOfHex buf with
-      | some b =>
-        open Percival.Model.SockAddr in
-        let r := deserialize b.toArray b.length
-        match r with
-        | .ok none => "sdes inrange | null"
-        | .ok (some a) =>
-          if a.name.size = a.namelen.toNat ∧ b.length = 12 + a.name.size then s!"sdes inrange | {showAddr a}"
-          else "sdes MODEL-OUT-OF-RANGE"
-        | _ => "sdes " ++ resStr r (fun _ => "")
-      | none => "bad-op"
-    | ["sres", addr] =>
-      match bytesOfHex addr with
-      | some a => sres (cbytes a)
-      | none => "bad-op"
-    | ["ensure", addr] =>
-      match bytesOfHex addr with
-      | some a => "ensure inrange | " ++ resStr (SockAddr.ensurePort (cstr (cbytes a))) hx
-      | none => "bad-op"
-    -- key file / passphrase file ---------------------------------------------------------------
-    | ["awskeys", file] =>
-      match bytesOfHex file with
-      | some f =>
-        "awskeys inrange | " ++ resStr (Lines.awsReadkeys (Array.replicate Gen.CodecTables.awsLineBuf 0xaa) f) fun r =>
-          match r with
-          | .fail => "fail"
-          | .keys i s => s!"ok {hx i} {hx s}"
-      | none => "bad-op"
-    | ["readpass", file] =>
-      match bytesOfHex file with
-      | some f =>
-        "readpass inrange " ++ resStr (Lines.readpassFile (Array.replicate Gen.CodecTables.maxPassLen 0xaa) f) fun r =>
-          match r with
-          | none => "fail"
-          | some p => s!"ok {hx p}"
-      | none => "bad-op"
-    -- modelled elsewhere (C16 / C18): observed under ASan only ---------------------------------
-    | "humansize" :: _ => "humansize inrange"
-    | "parsenum" :: _ => "parsenum inrange"
-    | "getopt" :: _ => "getopt inrange"
-    | _ => "bad-op"
-  ((), out)
+  match parse toks with
+  | some op => ((), render (stepOp op))
+  | none => ((), "bad-op")
 
 def main (_args : List String) : IO UInt32 := loop () step
 
